@@ -56,7 +56,7 @@ def cases_for(tier):
 
     def add(name, ins, expr, out, ref, pre=None):
         C.append({'name': name, 'ins': ins, 'expr': expr, 'out': out, 'ref': ref, 'pre': pre})
-    ws = list(range(1, 10)) + ([13, 16] if tier == 'thorough' else [13])
+    ws = list(range(1, 10)) + ([11, 13, 16, 24] if tier == 'thorough' else [13])
     for w in ws:
         for b in ([1, 2, 3, 6] if tier == 'quick' else range(1, 8)):
             add('count_set_bits', {'a': ('bv', w)}, f"std.count_set_bits(self.a, batch_size={b})", ('u', 8), lambda a: popcount(a))
@@ -191,14 +191,14 @@ def tsrc(t):
     return pg.tsrc(*t)
 
 
-def value_space(ins, rnd):
+def value_space(ins, rnd, thorough=False):
     names = list(ins)
     bits = sum(1 if ins[n][0] == 'bit' else ins[n][1] for n in names)
     doms = [range(2) if ins[n][0] == 'bit' else range(1 << ins[n][1]) for n in names]
-    if bits <= 10:
+    if bits <= (12 if thorough else 10):
         return [dict(zip(names, c)) for c in itertools.product(*doms)]
     out = []
-    for n_ in range(300):
+    for n_ in range(1500 if thorough else 300):
         d = {}
         for n, dom in zip(names, doms):
             hi = len(dom) - 1
@@ -225,7 +225,7 @@ def run_helper(case):
     _n[0] += 1
     cname = f"HP{_n[0]}"
     ins, expr, out = spec['ins'], spec['expr'], spec['out']
-    vals = value_space(ins, rnd)
+    vals = value_space(ins, rnd, thorough=case.get('tier') == 'thorough')
     if spec['pre']:
         vals = [v for v in vals if spec['pre'](**v)]
     consts = rnd.sample(vals, min(6, len(vals)))
